@@ -1443,6 +1443,82 @@ fn soup(r: &mut Rng) -> String {
     s
 }
 
+/// Characters for the positions where the lexer tests a character class:
+/// ASCII digits and letters next to their non-ASCII lookalikes (full-width,
+/// Arabic-Indic, Devanagari, superscripts, Roman numerals, fractions),
+/// combining marks and non-ASCII blanks.
+const UNI_POOL: &[char] = &[
+    '0', '1', '5', '9', 'a', 'Z', '_', 'x',
+    '\u{FF10}', '\u{FF15}', '\u{FF19}', // full-width digits
+    '\u{FF41}', '\u{FF38}', '\u{FF3F}', // full-width letters and low line
+    '\u{0660}', '\u{0663}', '\u{06F5}', '\u{096B}', // Arabic-Indic, extended, Devanagari digits
+    '\u{00B2}', '\u{00B9}', '\u{2075}', // superscripts
+    '\u{2160}', '\u{2163}', '\u{216F}', // Roman numerals
+    '\u{00BD}', '\u{2155}', // fractions
+    '\u{0301}', '\u{20DD}', '\u{200B}', // combining marks, zero-width space
+    '\u{00A0}', '\u{3000}', '\u{2003}', '\u{0085}', '\u{2028}', // non-ASCII blanks, line separator
+    '\u{00E9}', '\u{00DF}', '\u{01C5}', '\u{0130}', // letters, title case, dotted capital I
+    '\u{FF04}', '\u{FF1C}', '\u{FF1E}', '\u{FF5B}', '\u{FF03}', '\u{FF5E}', // full-width $ < > { # ~
+    '\u{1D7D8}', '\u{1F600}', // mathematical digit (astral), emoji
+];
+
+/// Texts with a hole `@` (and optionally a second hole `%`) at a position
+/// where a character class decides how the text is read.
+const UNI_TEMPLATES: &[&str] = &[
+    // after `$`
+    "echo $@", "echo $@@", "echo $@%", "echo a$@b", "echo \"$@\"", "echo \"a $@% b\"", "echo $@$%",
+    "echo $((@))", "echo $(($@))", "echo $(( $@ + % ))", "echo $((1@))", "echo `echo $@`", "echo $(echo $@)",
+    // after `${`, `${#`
+    "echo ${@}", "echo ${@%}", "echo ${#@}", "echo ${#@%}", "echo ${a@}", "echo ${1@}", "echo ${@1}",
+    "echo ${@:-%}", "echo ${x:-$@}", "echo ${#}@", "echo \"${@}\"", "echo ${@#%}", "echo ${#@:-x}",
+    // IO numbers and redirections
+    "@>file", "echo @>file", "echo 2@>f", "echo @2>f", "@<f", "echo @>&2", "echo >&@", "echo 2>&@",
+    "echo @>>f", "echo <>@", "echo {@}>f", ">@ if",
+    // assignments and names
+    "@=1", "a@=1 cmd", "@a=1", "@=(a b)", "x=(@ %)", "export @=~/a", "export a=~@", "@=% cmd", "a=@ b=%",
+    "@() { :; }", "f@ () { :; }", "for @ in a; do :; done", "for i in @; do echo $@; done",
+    // tilde
+    "~@", "echo ~@/foo", "a=~@:~%", "echo ~@%", "echo ~a@",
+    // escapes in dollar-single-quotes
+    "echo $'\\x@'", "echo $'\\x4@'", "echo $'\\u@'", "echo $'\\u00@'", "echo $'\\U@'", "echo $'\\@'",
+    "echo $'\\1@'", "echo $'\\c@'", "echo $'@'", "echo $'\\12@%'",
+    // keywords and lookalikes
+    "@if true; then :; fi", "if@ true; then :; fi", "if true; then@ :; fi", "{@ :; }", "{ :; }@", "!@ true",
+    "! @", "@", "@ %", "case @ in @) ;; esac", "case x in (@|%) :;; esac", "while @; do :; done",
+    "\u{FF49}\u{FF46} true; then :; fi", "function@ f { :; }",
+    // blanks, comments, separators
+    "echo@foo", "echo a@b", "a=1@b", "foo;@bar", "foo@|@bar", "echo a #@", "echo a@#b", "@#c", "(@:@)",
+    "echo 'a@b' \"c@d\" e\\@f",
+    // here-documents
+    "cat <<@\nbody $@\n@\n", "cat <<E\n$@ ${@} $((@)) `@`\nE\n", "cat <<-@\n\t$%\n@\n", "cat <<'@'\n$%\n@\n",
+    "cat <<E@\nx\nE@\n", "cat @<<E\n$%\nE\n", "cat <<E\n\\$@\nE\n",
+];
+
+fn uni_fill(t: &str, a: &str, b: &str) -> String {
+    t.replace('@', a).replace('%', b)
+}
+
+/// A random text of the Unicode stream.
+fn unicode_text(r: &mut Rng) -> String {
+    let t = *r.pick(UNI_TEMPLATES);
+    let pick = |r: &mut Rng| -> String {
+        let n = if r.chance(1, 3) { 2 + r.below(2) } else { 1 };
+        (0..n).map(|_| *r.pick(UNI_POOL)).collect()
+    };
+    let a = pick(r);
+    let b = pick(r);
+    let mut s = uni_fill(t, &a, &b);
+    if r.chance(1, 6) {
+        // two such commands in a list or a pipeline
+        let t2 = *r.pick(UNI_TEMPLATES);
+        if !t.contains("<<") && !t2.contains("<<") {
+            let c = pick(r);
+            s = format!("{s}{}{}", *r.pick(&["; ", " | ", " && ", "\n", " & "]), uni_fill(t2, &c, &a));
+        }
+    }
+    s
+}
+
 /// The scripts embedded in yash-cli/tests/scripted_test/*.sh, one per test case.
 fn scripted_tests() -> Vec<(String, String)> {
     let repo = std::env::var("YV_REPO").unwrap_or_else(|_| "/repo".into());
@@ -1481,6 +1557,18 @@ fn scripted_tests() -> Vec<(String, String)> {
 }
 
 const CORPUS: &[&str] = &[
+    // non-ASCII numeric characters where only ASCII digits count: a literal `$`
+    // followed by literals, not a positional parameter, and never a panic
+    "echo $\u{FF15}\u{FF10}\u{FF10}",
+    "echo $\u{0663}",
+    "echo $\u{00B2}",
+    "echo \"$\u{FF15}\"",
+    "echo $(($\u{FF15}))",
+    "echo ${\u{FF15}}",
+    "echo ${#\u{0663}}",
+    "\u{FF12}>file",
+    "\u{FF58}=1",
+    "cat <<E\n$\u{FF15} ${\u{0663}}\nE\n",
     // once-failing inputs (repaired in /repo; reverting a repair must be caught)
     "echo ${",
     "echo ${#",
@@ -1851,7 +1939,36 @@ fn main() {
         e.emit("soup", &format!("soup#{k}"), &src);
     }
 
-    // 6. thorough: every text up to length 3 over the special characters
+    // 6. characters of every class at the positions where the lexer tests a class:
+    //    every template with every character (a sample in the quick tier), then random fillings
+    {
+        let mut ur = rng.fork(5);
+        let mut k = 0usize;
+        let all = UNI_TEMPLATES.len() * UNI_POOL.len();
+        let take = args.scale(900, all);
+        let step = (all / take.max(1)).max(1);
+        let off = if args.thorough() { 0 } else { ur.below(step) };
+        for (ti, t) in UNI_TEMPLATES.iter().enumerate() {
+            for (ci, c) in UNI_POOL.iter().enumerate() {
+                let n = ti * UNI_POOL.len() + ci;
+                // the digits and lookalikes after `$`, `${`, `${#` and as IO numbers: always
+                let always = ti < 26 + 12 && (c.is_numeric() || !c.is_ascii());
+                if n % step == off % step || (always && (args.thorough() || (ti + ci) % 3 == 0)) {
+                    let b = UNI_POOL[(ci * 7 + ti) % UNI_POOL.len()];
+                    let src = uni_fill(t, &c.to_string(), &b.to_string());
+                    e.emit("unicode", &format!("unicode-sys#{k}"), &src);
+                    k += 1;
+                }
+            }
+        }
+        for j in 0..args.scale(250, 6000) {
+            let mut r = ur.fork(1000 + j as u64);
+            let src = unicode_text(&mut r);
+            e.emit("unicode", &format!("unicode#{j}"), &src);
+        }
+    }
+
+    // 7. thorough: every text up to length 3 over the special characters
     if args.thorough() {
         const A: &[char] = &['a', '$', '{', '}', '(', ')', '\'', '"', '`', '\\', '\n', ' ', ';', '#', '<', '-', '~', '='];
         let mut k = 0;
@@ -1886,8 +2003,9 @@ fn main() {
 
     e.w.finish(
         "source texts: hand corpus, grammar-generated programs (all constructs, surface variation), \
-         the repository's scripted-test scripts, mutations, character soup, (thorough) all texts of \
-         length <= 3 over 18 special characters; non-trivial = the implementation parsed the text to a \
+         the repository's scripted-test scripts, mutations, character soup, characters of every class \
+         (ASCII and non-ASCII digits, letters, blanks, combining marks) at the positions where the lexer \
+         tests a character class, (thorough) all texts of length <= 3 over 18 special characters; non-trivial = the implementation parsed the text to a \
          non-empty tree (so the round trip was exercised); distinct = by source text",
     );
 }
